@@ -29,6 +29,24 @@ Step ==
 
 (* verdict at the end of the execution *)
 End == T.end
+(* C21 for the active-object host: with live spy / live trace on, the writer thread hands every handler-call line of the spy *)
+(* and every trace record to the registered callbacks exactly once and in production order.  Expected from the handlers' own *)
+(* call log: "SIG:state", followed by "SIG:state:HOOK" when a chart signal was handled internally; and (two-state toggle     *)
+(* chart) one trace record for the start and one per dispatched A.                                                            *)
+L == End.liveout
+CallLine(c) == c[1] \o ":s" \o ToString(c[2])
+RECURSIVE ExpSpy(_)
+ExpSpy(cs) == IF cs = <<>> THEN <<>>
+              ELSE <<CallLine(Head(cs))>> \o (IF Head(cs)[3] = "HANDLED" /\ Head(cs)[1] \in {"A", "B", "C"} THEN <<CallLine(Head(cs)) \o ":HOOK">> ELSE <<>>)
+                   \o ExpSpy(Tail(cs))
+RECURSIVE ExpTrc(_, _)
+ExpTrc(sigs, cur) == IF sigs = <<>> THEN <<>>
+                     ELSE IF Head(sigs) = "A" THEN <<<<"A", "s" \o ToString(cur), "s" \o ToString(3 - cur)>>>> \o ExpTrc(Tail(sigs), 3 - cur)
+                     ELSE ExpTrc(Tail(sigs), cur)
+LiveClauses ==
+  IF ~L.live \/ End.outcome # "quiescent" \/ End.stopped THEN {}
+  ELSE (IF L.live_spy_calls = ExpSpy(L.calls) THEN {} ELSE {"LiveSpy"})
+       \cup (IF ~L.toggle \/ L.live_trc = <<<<"start_at", "top", "s1">>>> \o ExpTrc(L.disp_sigs, 1) THEN {} ELSE {"LiveTrace"})
 Final ==
      (IF End.outcome = "bound" THEN {"NoProgress"} ELSE {})
   \cup (IF End.outcome = "error" THEN {"Error"} ELSE {})
@@ -39,6 +57,7 @@ Final ==
   \cup (IF ~InOrder THEN {"Order"} ELSE {})
   \cup (IF ~NothingLost THEN {"Lost"} ELSE {})
   \cup (IF End.rtc_overlap THEN {"RtcOverlap"} ELSE {})
+  \cup LiveClauses
 
 TNext ==
   /\ bad = {} /\ l <= Len(T.ops) + 1 /\ tid' = tid /\ l' = l + 1
